@@ -186,6 +186,14 @@ def pkgDirOf (p : Path) (root : Str) : Path := p ++ (splitOn DOT root).filter (Â
 def listPackages (roots : List Path) (sfx : List Str) (fs : Fs) (sysModules : List Str) (root : Str) : List Str :=
   sysChildren sysModules root ++ roots.flatMap (fun p => dirChildren sfx fs (pkgDirOf p root))
 
+/-- assistant.list_packages(project, root, filename): the children of `norm_package(root, filename)`, and `[]`
+    when norm_package raises ImportError (a relative name above the top-level package) -/
+def assistListPackages (roots : List Path) (sfx : List Str) (fs : Fs) (sysModules : List Str)
+    (root : Str) (file : Path) : List Str :=
+  match normPackage fs file root with
+  | .error _ => []
+  | .ok n => listPackages roots sfx fs sysModules n
+
 /-! ## util.split_pkg / util.join_pkg (own copies) -/
 
 def joinPkg (package module : Str) : Str :=
